@@ -295,17 +295,23 @@ def copy_file(src: pathlib.Path, dst: pathlib.Path,
         # https://github.com/fumitoh/modelx/issues/82
         retries = 3
         for i in range(retries):
+            opened = False
             try:
                 with zipfile.ZipFile(root_dst, mode="a",
                                      **_compress_kwargs(compression, compresslevel)
                                      ) as zip_dst:
+                    opened = True
                     if not _archive_exists(arc_dst, zip_dst):
                         if is_valid_archive_path(arc_dst, zip_dst):
                             zip_dst.write(src, arc_dst)
                         else:
                             raise ValueError("invalid archive '%s'" % arc_dst)
             except PermissionError:
-                if i < retries - 1:
+                # Retry only if the archive could not be opened.
+                # After a failed write or close, the archive may have lost
+                # its central directory, and appending to it again would
+                # silently drop the files archived so far.
+                if not opened and i < retries - 1:
                     warnings.warn("writing to '%s' failed, retrying...")
                     time.sleep(1)
                     continue
